@@ -1,0 +1,39 @@
+//go:build verif
+
+package model
+
+// Verification hooks: exported access to unexported internals for the
+// correspondence harness in /verif.  Compiled only with -tags verif.
+
+// VerifWeights wraps a Weights value.
+type VerifWeights struct{ W Weights }
+
+// AddIndexWeight calls the unexported addIndexWeight.
+func (v *VerifWeights) AddIndexWeight(i int, w int64) { v.W.addIndexWeight(i, weight(w)) }
+
+// Add calls the unexported add.
+func (v *VerifWeights) Add(w int64) { v.W.add(weight(w)) }
+
+// AddMultiple calls the unexported addMultiple.
+func (v *VerifWeights) AddMultiple(w int64, n int) { v.W.addMultiple(weight(w), n) }
+
+// Find calls the unexported find.
+func (v *VerifWeights) Find(w int64) (int, error) { return v.W.find(weight(w)) }
+
+// Choose calls the unexported choose (draws from math/rand's global source).
+func (v *VerifWeights) Choose() (int, error) { return v.W.choose() }
+
+// TopWeight calls the unexported topWeight.
+func (v *VerifWeights) TopWeight() (int64, error) { t, err := v.W.topWeight(); return int64(t), err }
+
+// Reset calls the unexported reset.
+func (v *VerifWeights) Reset() { v.W.reset() }
+
+// Scale returns the cumulative scale as (I,W) pairs.
+func (v *VerifWeights) Scale() [][2]int64 {
+	out := make([][2]int64, 0, len(v.W.Scale))
+	for _, e := range v.W.Scale {
+		out = append(out, [2]int64{int64(e.I), int64(e.W)})
+	}
+	return out
+}
